@@ -26,6 +26,7 @@ CONSTANTS
   TbVals = {}
   TickVals = {0, 1, 2}
   Targets = {"A", "B"}
+  SubTargets = {"A", "B"}
   AutoVals = {TRUE}
   SubOneshot = {FALSE}
   Senders = {"A"}
